@@ -156,13 +156,15 @@ theorem selOk_of_mirrors {e : Emu} {m : Mux} (ht : e.shape.IsTrack m) (hs : Shap
     after any `Sim` step of the emulator (in particular `modelEvent`): the writes
     lead to a bay mirroring the new state, `bay_propagate` succeeds, and the
     result mirrors the flushed new state with every mux in sync again. -/
-theorem Inv.step {e e' : Emu} {b0 b : Bay} (hc : e.shape.connect = .ok b0) (hs : Shaped e)
-    (hi : Inv b0 e b) (hsim : Sim e e') :
+theorem Inv.step {P : Src → Prop} {e e' : Emu} {b0 b : Bay} (hc : e.shape.connect = .ok b0) (hs : Shaped e)
+    (hi : Inv b0 e b) (hsim : SimP P e e') :
     Shaped e'.flushAll ∧ e'.flushAll.shape = e.shape ∧
-    ∃ b1 b2 em, Bay.Writes (· < e.shape.L) b b1 ∧ Mirrors e' b1 ∧ (∀ c, b1.chan c = b.chan c ∨ c < e.shape.L) ∧
+    ∃ b1 b2 em, Bay.Writes (e.shape.okP P) b b1 ∧ Mirrors e' b1 ∧
+      (∀ c, b1.chan c = b.chan c ∨ c < e.shape.L) ∧
       b1.propagate = .ok (b2, em) ∧ Inv b0 e'.flushAll b2 := by
   obtain ⟨hs', hshape, hw⟩ := hsim hs
-  obtain ⟨b1, hw1, hm1⟩ := hw b hi.mirrors
+  obtain ⟨b1, hwP, hm1⟩ := hw b hi.mirrors
+  have hw1 : Bay.Writes (· < e.shape.L) b b1 := hwP.mono (fun _ h => Shape.okP_lt h)
   have hbuilt := Shape.connect_built hc
   have hlay : b.Layered e.shape.L := by
     have := hbuilt.topo.layered
@@ -182,7 +184,7 @@ theorem Inv.step {e e' : Emu} {b0 b : Bay} (hc : e.shape.connect = .ok b0) (hs :
   obtain ⟨wf2, hcl2, hmx2⟩ := Bay.propagate_wf wf1 hp
   have hlen1 : b1.chans.length = b.chans.length := hw1.length
   have hlen2 := Bay.propagate_length wf1 hp
-  refine ⟨hs'.flushAll, (Emu.shape_flushAll e').trans hshape, b1, b2, em, hw1, hm1, ?_, hp, ?_⟩
+  refine ⟨hs'.flushAll, (Emu.shape_flushAll e').trans hshape, b1, b2, em, hwP, hm1, ?_, hp, ?_⟩
   · intro c
     by_cases hcl : c < e.shape.L
     · exact Or.inr hcl
@@ -243,8 +245,9 @@ theorem Inv.modelEvent {e e' : Emu} {b0 b : Bay} {ti m c v : Nat} {p : List Nat}
     (h : modelEvent e ti m c v p th mh = .ok e') :
     Shaped e'.flushAll ∧ e'.flushAll.shape = e.shape ∧
     ∃ b1 b2 em, Bay.Writes (· < e.shape.L) b b1 ∧ Mirrors e' b1 ∧ (∀ c, b1.chan c = b.chan c ∨ c < e.shape.L) ∧
-      b1.propagate = .ok (b2, em) ∧ Inv b0 e'.flushAll b2 :=
-  hi.step hc hs (Sim.modelEvent hth hmh h)
+      b1.propagate = .ok (b2, em) ∧ Inv b0 e'.flushAll b2 := by
+  obtain ⟨h1, h2, b1, b2, em, hw, h3, h4, h5, h6⟩ := hi.step hc hs (Sim.modelEvent hth hmh h)
+  exact ⟨h1, h2, b1, b2, em, hw.mono (fun _ h => Shape.okP_lt h), h3, h4, h5, h6⟩
 
 /-! ### the hooks in use -/
 
@@ -258,8 +261,8 @@ theorem hookSim_mark (tab : List MarkType) : HookSim (fun e ti _ v p => markEven
   simp only [markEvent] at h
   repeat' split at h
   all_goals first | (cases h; done) | skip
-  · exact Sim.withChan (chanOp_push _ _) h
-  · exact Sim.withChan (chanOp_pop _) h
-  · exact Sim.withChan (chanOp_set _) h
+  · exact (SimP.withChan (chanOp_push _ _) h).sim
+  · exact (SimP.withChan (chanOp_pop _) h).sim
+  · exact (SimP.withChan (chanOp_set _) h).sim
 
 end Ovni.Emu
